@@ -194,6 +194,13 @@ def run(chk):
     if 'BoundedReadsAfterEof' not in r0.violated:
         raise core.MachineryError('self-test: the pre-fix reader model should violate BoundedReadsAfterEof')
     chk.extra['unfixed_reader_model_violates_BoundedReadsAfterEof'] = True
+    # the second way to stop: a TCP reset (FramingReset.tla reuses Framing's actions, guarded by ~rst)
+    chk.tlc('MC_FramingReset', 'FramingReset_safety.cfg')
+    chk.tlc('MC_FramingReset', 'FramingReset_live.cfg')
+    r1 = chk.tlc('MC_FramingReset', 'FramingReset_errbits.cfg', must_pass=False)
+    if 'ResetLeaves' not in r1.violated:
+        raise core.MachineryError('self-test: a readiness call that takes error bits for "nothing to read" should violate ResetLeaves')
+    chk.extra['errbits_deviation_model_violates_ResetLeaves'] = True
     # ---- binding: every prefix of every reference stream
     traces = []
     lengths = {}
